@@ -217,6 +217,14 @@ func c04Loop(c *Ctx) {
 		r.Undecided("C04-K2", key("shape"), c.P.pos(f.Pos()), fmt.Sprintf("expected code read, length read and Consume; found %d reads, consume=%v", len(reads), consume != nil))
 		return
 	}
+	// the Lexer of the loop covers exactly the bytes handed in (nothing trimmed or skipped beforehand)
+	allInstrs(f, func(in ssa.Instruction) {
+		if cl, ok := in.(*ssa.Call); ok && isFuncCall(cl.Common(), uioPath, "NewBigEndianBuffer") {
+			got, want := sx.Of(cl.Call.Args[0]).String(), sx.Of(f.Params[1]).String()
+			r.Check(got == want, "C04-K2", key("the option Lexer covers the whole area handed in"), c.P.ipos(cl), "NewBigEndianBuffer(data) with data the parameter itself",
+				"the Lexer is built over "+got+" instead of the parameter: bytes are dropped before parsing (e.g. trailing zeros), so an area without End — or with a truncated last option — can be accepted")
+		}
+	})
 	code, length := reads[0], reads[1]
 	if instrDominates(length, code) {
 		code, length = length, code
